@@ -205,6 +205,9 @@ inductive Op
   | setNs (e : El) (p : Policy)              -- e[".NS"] = policy
   | delNs (e : El)                           -- del e[".NS"]
   | setDefault (p : Policy)                  -- NamespaceManager.default = policy
+  | createIn (p c : El) (name ident : Option String)
+      -- compound constructor `parent.create_X(name, properties={"EDIF.identifier": ident})`:
+      -- construct, name, set the identifier, add; `c` is the fresh object
   deriving Repr, Inhabited
 
 /-- explicit or implicit `.NS` assignment on an element without parent check (used by attach) -/
@@ -247,7 +250,7 @@ def N.register (s1 : N) (p c : El) : N :=
   { s3 with parent := fun x => if x = c then some p else s3.parent x
             kids := fun x => if x = p then s3.kids x ++ [c] else s3.kids x }
 
-def step (s : N) : Op → N × Res
+def stepCore (s : N) : Op → N × Res
   | .create e =>
     -- constructors only ever produce fresh objects
     if s.parent e ≠ none ∨ s.kids e ≠ [] then (s, .assert) else
@@ -298,6 +301,22 @@ def step (s : N) : Op → N × Res
     if (s.info e).ns = none then (s, .key) else
     (s.dropNs e, .ok)
   | .setDefault p => ({ s with dflt := p }, .ok)
+  | .createIn _ _ _ _ => (s, .ok)     -- handled by `step`
+
+/-- a sequence of calls that is abandoned at the first refusal; the half-built object is then garbage
+    and the state is the one before the compound call -/
+def tryAll (s0 : N) : N → List Op → N × Res
+  | s, [] => (s, .ok)
+  | s, op :: ops =>
+    match stepCore s op with
+    | (s1, .ok) => tryAll s0 s1 ops
+    | (_, r) => (s0, r)
+
+def step (s : N) : Op → N × Res
+  | .createIn p c name ident =>
+    tryAll s s ([.create c] ++ (match name with | some v => [.setKey c .name v] | none => []) ++
+                (match ident with | some v => [.setKey c .ident v] | none => []) ++ [.attach p c])
+  | op => stepCore s op
 
 def run (s : N) : List Op → N × List Res
   | [] => (s, [])
